@@ -227,6 +227,32 @@ def _eval_dataset(rankings, scheme, weights, cands, A, mods, fails):
                         continue
                     break
         tables[site] = M
+    # the table as it is handed over by the graph builders (what the exact algorithms and ParCons actually use)
+    for fname in ("graph_of_elements", "graph_of_elements_with_robust_arcs"):
+        fn = getattr(PBA, fname, None)
+        if fn is None:
+            continue
+        try:
+            res = fn(P.copy(), sch)
+        except Exception as e:
+            fails.append({"clause": "C02.prop", "site": "%s(...)[1]" % fname,
+                          "detail": {"exception": type(e).__name__, "msg": str(e)[:300]}})
+            continue
+        evals += 1
+        _compare_table(res[1], tab, ids, "C02.prop", "%s(...)[1]" % fname, fails)
+    # a dataset that keeps the element types it is given (the sub-problems of ParCons / of the optimised exact algorithm
+    # are built that way): same matrices, same table
+    try:
+        from corankco.dataset import Dataset
+        ds_k = Dataset([A.mk_ranking(r) for r in exp_r], keep_element_types=True)
+        got_k = _check_matrices(ds_k, exp_r, universe, fails, A)
+        if got_k is not None:
+            ids_k, P_k, _Bk_k = got_k
+            evals += 1
+            _compare_table(PBA.pairwise_cost_matrix(P_k, sch), tab, ids_k, "C02.prop",
+                           "pairwise_cost_matrix(get_positions), Dataset(keep_element_types=True)", fails)
+    except TypeError:
+        pass            # a Dataset constructor without that option
     if len(tables) == 2:
         Mp, Mb = tables["pairwise_cost_matrix(get_positions)"], tables["pairwise_cost_matrix(get_bucket_ids)"]
         if Mp.shape != Mb.shape or not (Mp == Mb).all():
